@@ -8,7 +8,9 @@
    Well-formed histories (wf): every frame is exactly one decodable BMP message, no frame follows a
    termination message on the same connection, a peer up arrives only for a peer that is not up, IPv4
    peer addresses have their 12 leading zero bytes, and the BGP layer yields path identifier 0 on
-   sessions without add-path. The BGP layer (OPEN decoding, decode + application of UPDATEs) is an
+   sessions without add-path and announces no path the pseudo session's Adj-RIB-In hides (an eBGP path
+   without AS_PATH, ORIGINATOR_ID = the monitored router's id; AS loops and cluster loops are not hidden: a BMP VRF
+   has no contributing ASNs / cluster ids). The BGP layer (OPEN decoding, decode + application of UPDATEs) is an
    arbitrary pair of functions. Configurations: any IgnorePrePolicy / IgnorePostPolicy, no
    IgnorePeerASNs (C28_mirror_refuted shows what happens with them). *)
 From Coq Require Import List NArith.
@@ -39,6 +41,17 @@ Theorem C28_mirror_refuted :
 Proof. exact mirror_refuted. Qed.
 Print Assumptions C28_mirror_refuted.
 
+(* ... nor for announcements the Adj-RIB-In of the pseudo session hides (wf excludes them): an eBGP path
+   without AS_PATH and a path whose ORIGINATOR_ID is the monitored router's own id are stored hidden and
+   never reach the table (known findings route-missing:hidden-*; witnesses in corpus/C28). Paths with
+   the monitored router's AS or cluster id in AS_PATH / CLUSTER_LIST are NOT hidden and are covered by
+   C28_mirror_partial. *)
+Theorem C28_mirror_hidden_refuted :
+  exists open_decode upd_apply c acts,
+    ignore_asns c = [] /\ ~ mirror_holds open_decode upd_apply c acts.
+Proof. exact mirror_hidden_refuted. Qed.
+Print Assumptions C28_mirror_hidden_refuted.
+
 (* Nothing learned from a peer or session that is gone remains: tables hold routes of up peers only;
    right after a peer down of k its VRF's tables hold only routes of other peers; right after a
    termination message or the loss of the connection there is no neighbor and every table is empty
@@ -51,7 +64,7 @@ Theorem C28_nothing_remains :
   wf open_decode upd_apply c acts = true ->
   run open_decode upd_apply c init acts = Some st ->
   (forall rd v6 e, In e (table st rd v6) ->
-     exists addr x, sess (trace open_decode upd_apply c acts) (rd, addr) = Some x /\ fst (fst x) = fst (fst e)) /\
+     exists addr x, sess (trace open_decode upd_apply c acts) (rd, addr) = Some x /\ fst (fst (fst (fst x))) = fst (fst e)) /\
   (forall k tr', trace open_decode upd_apply c acts = EDown k :: tr' ->
      forall v6 e, In e (table st (fst k) v6) ->
      exists addr x, addr <> snd k /\ sess tr' (fst k, addr) = Some x) /\
@@ -87,9 +100,12 @@ Print Assumptions C28_observers_disposed.
    message [1; p; i] announces p/24 with path id i, [2; p; i] withdraws it. *)
 Definition ex_open (b : bytes) : option open_info :=
   Some (mk_open (be (firstn 2 (skipn 20 b))) 1 [] [(1, 1, 3)]).
+(* an ordinary path, and one whose AS_PATH contains the monitored router's own AS 65001 (a real session's
+   Adj-RIB-In would hide it as an AS loop; the BMP mirror stores what was reported) *)
+Definition ex_attrs : pattrs := mk_pa false [65010; 65001; 65100] 0 [65001].
 Definition ex_apply (_ _ _ : bool) (b : bytes) : list uevent :=
   match b with
-  | [1; p; i] => [UAnn false (p, 24) i]
+  | [1; p; i] => [UAnn false (p, 24) i ex_attrs]
   | [2; p; i] => [UWdr false (p, 24) i]
   | _ => []
   end.
